@@ -697,6 +697,93 @@ Section ModuleRename.
       + unfold env_of. cbn [renamed m_folder m_imports flat_map bind_stmt bind_from app from_module].
         fold l'. rewrite (r_ltb_len_p Hp), r_rel_find_nb, Hgs. reflexivity.
   Qed.
+
+  (* ------------------------------------------------------------------ no stale import *)
+  Lemma r_ok_of_env (wx : world) m e : env_of false wx (m_folder m) (m_imports m) = e -> env_ok e = true -> imports_ok wx m = true.
+  Proof. intros H1 H2. unfold imports_ok. rewrite H1. exact H2. Qed.
+
+  Lemma r_ok_glob m m' y g :
+    env_of false w (m_folder m) (m_imports m) = [(y, mod_attr w (fun _ => true) src g)] ->
+    env_of false w' (m_folder m') (m_imports m') = [(y, mod_attr w' (fun _ => true) new g)] ->
+    imports_ok w m = true -> imports_ok w' m' = true.
+  Proof.
+    intros H1 H2. unfold imports_ok. rewrite H1, H2. unfold src, new. rewrite !mod_attr_py. fold new src.
+    rewrite r_globals_new. destruct (memN g (globals_of w src)); auto.
+  Qed.
+
+  Theorem rename_module_all_import F name st refs :
+    rename_style_side p b F st = true ->
+    forallb (ref_ok w p b st) refs = true ->
+    imports_ok w (client_of p b F name st refs) = true ->
+    imports_ok w' (rename_module_text w src nb (client_of p b F name st refs)) = true.
+  Proof.
+    intros Hst Hrefs Hok. rewrite forallb_forall in Hrefs. unfold rename_style_side in Hst.
+    destruct st as [|x|xo|g k| |xr|g k].
+    - rewrite ren_import.
+      2:{ intros r Hr. destruct (r_ref_ok_base StImport _ r eq_refl (Hrefs r Hr)) as [->|[g [_ ->]]].
+          - exists []. rewrite app_nil_r. reflexivity.
+          - exists [g]. reflexivity. }
+      destruct (r_after_dotted (renamed F name StImport refs) eq_refl) as [A1 _].
+      unfold resolve_ref in A1. destruct (imports_ok w' (renamed F name StImport refs)); [reflexivity|discriminate].
+    - apply negb_true_iff in Hst. rewrite ren_import_as; auto.
+      2:{ intros r Hr. destruct (r_ref_ok_base (StImportAs x) _ r eq_refl (Hrefs r Hr)) as [->|[g [_ ->]]];
+          [left; reflexivity|right; eexists; reflexivity]. }
+      eapply r_ok_of_env.
+      { unfold env_of. cbn [renamed m_folder m_imports flat_map bind_stmt bind_normal app abs_import].
+      fold l'. rewrite r_find_new. reflexivity. }
+      reflexivity.
+    - apply andb_true_iff in Hst as [Hp0 Hxo].
+      assert (Hp : p <> []) by (destruct p; [discriminate|discriminate]).
+      assert (Hxo' : match xo with Some y => N.eqb y b = false | None => True end).
+      { destruct xo; [apply negb_true_iff; exact Hxo|exact I]. }
+      rewrite ren_from_pkg; auto.
+      2:{ intros r Hr. destruct (r_ref_ok_base (StFromPkg xo) _ r eq_refl (Hrefs r Hr)) as [->|[g [_ ->]]].
+          - exists []. split; [rewrite app_nil_r; reflexivity|left; reflexivity].
+          - exists [g]. split; [reflexivity|right; exists g; reflexivity]. }
+      eapply r_ok_of_env.
+      { unfold env_of. cbn [renamed m_folder m_imports flat_map bind_stmt bind_from app from_module abs_import]. fold l'.
+      rewrite (r_py_find_p' Hp), R_nS, r_attr_p_nb by auto. reflexivity. }
+      reflexivity.
+    - apply andb_true_iff in Hst as [Hgb Hgs]. apply negb_true_iff in Hgb. apply negb_true_iff in Hgs.
+      rewrite ren_from_mod; auto.
+      2:{ intros r Hr. specialize (Hrefs r Hr). unfold ref_ok in Hrefs. cbn [style_base] in Hrefs.
+          apply dotted_eqb_eq. exact Hrefs. }
+      eapply (r_ok_glob (client_of p b F name (StFromMod g k) refs) _ (or_name k g) g); eauto.
+      + unfold env_of. cbn [client_of m_folder m_imports style_imports flat_map bind_stmt bind_from app from_module abs_import].
+        fold l. rewrite r_find_src, Hgs. reflexivity.
+      + unfold env_of. cbn [renamed m_folder m_imports flat_map bind_stmt bind_from app from_module abs_import].
+        fold l'. rewrite r_find_new, Hgs. reflexivity.
+    - rewrite ren_star.
+      2:{ intros r Hr. specialize (Hrefs r Hr). unfold ref_ok in Hrefs. cbn [style_base] in Hrefs.
+          apply existsb_exists in Hrefs as [g [_ Hg2]]. exists g. apply dotted_eqb_eq. exact Hg2. }
+      eapply r_ok_of_env.
+      + unfold env_of. cbn [renamed m_folder m_imports flat_map bind_stmt bind_from app from_module abs_import].
+        fold l'. rewrite r_find_new, N.eqb_refl, !app_nil_r. reflexivity.
+      + unfold env_ok. apply forallb_forall. intros y Hy. apply in_map_iff in Hy as [g0 [<- _]]. reflexivity.
+    - apply andb_true_iff in Hst as [Hst Hx]. apply andb_true_iff in Hst as [HF Hp0].
+      apply path_eqb_eq in HF. subst F. destruct xr as [xa|]; [discriminate|].
+      assert (Hp : p <> []) by (destruct p; [discriminate|discriminate]).
+      rewrite ren_rel_pkg; auto.
+      2:{ intros r Hr. destruct (r_ref_ok_base (StRelPkg None) [b] r eq_refl (Hrefs r Hr)) as [->|[g [_ ->]]];
+          [exists []; reflexivity|exists [g]; reflexivity]. }
+      eapply r_ok_of_env.
+      { unfold env_of. cbn [renamed m_folder m_imports flat_map bind_stmt bind_from app from_module].
+      fold l'. rewrite (r_ltb_len_p Hp). unfold find_relative_module. cbn [pred up].
+      rewrite R_nS, r_attr_p_nb by auto. reflexivity. }
+      reflexivity.
+    - apply andb_true_iff in Hst as [Hst Hgs]. apply andb_true_iff in Hst as [Hst Hgb].
+      apply andb_true_iff in Hst as [HF Hp0]. apply path_eqb_eq in HF. subst F.
+      apply negb_true_iff in Hgb. apply negb_true_iff in Hgs.
+      assert (Hp : p <> []) by (destruct p; [discriminate|discriminate]).
+      rewrite ren_rel_mod; auto.
+      2:{ intros r Hr. specialize (Hrefs r Hr). unfold ref_ok in Hrefs. cbn [style_base] in Hrefs.
+          apply dotted_eqb_eq. exact Hrefs. }
+      eapply (r_ok_glob (client_of p b p name (StRelMod g k) refs) _ (or_name k g) g); eauto.
+      + unfold env_of. cbn [client_of m_folder m_imports style_imports flat_map bind_stmt bind_from app from_module].
+        fold l. rewrite (r_ltb_len_p Hp), r_rel_find_b, Hgs. reflexivity.
+      + unfold env_of. cbn [renamed m_folder m_imports flat_map bind_stmt bind_from app from_module].
+        fold l'. rewrite (r_ltb_len_p Hp), r_rel_find_nb, Hgs. reflexivity.
+  Qed.
 End ModuleRename.
 
 Theorem rename_module_domain w p b nb m :
@@ -711,4 +798,19 @@ Proof.
   assert (Em : m = client_of p b (m_folder m) (m_name m) st (m_refs m)).
   { destruct m as [f n i r]. cbn in *. subst i. reflexivity. }
   rewrite Em. apply rename_module_client; assumption.
+Qed.
+
+Theorem rename_module_all_import_domain w p b nb m :
+  rename_domain w (RPy p b) nb m = true ->
+  imports_ok w m = true ->
+  imports_ok (map_world (rename_res (RPy p b) nb) w) (rename_module_text w (RPy p b) nb m) = true.
+Proof.
+  unfold rename_domain. intros H Hok.
+  apply andb_true_iff in H as [H Hst]. apply andb_true_iff in H as [Hlegal Hne].
+  destruct (style_of p b m) as [st|] eqn:Est; [|discriminate].
+  apply andb_true_iff in Hst as [Hst Himps]. apply andb_true_iff in Hst as [Hside Hrefs].
+  apply (list_eqb_eq istmt_eqb istmt_eqb_eq) in Himps.
+  assert (Em : m = client_of p b (m_folder m) (m_name m) st (m_refs m)).
+  { destruct m as [f n i r]. cbn in *. subst i. reflexivity. }
+  rewrite Em in Hok |- *. apply rename_module_all_import; assumption.
 Qed.
